@@ -1,2 +1,22 @@
 import FpgoVerif.Props.C04
 /-! `#print axioms` for every property theorem of C04; parsed by `check`. -/
+#print axioms FpgoVerif.C04.C04_step_inv
+#print axioms FpgoVerif.C04.C04_step_extends
+#print axioms FpgoVerif.C04.C04_step_persistent
+#print axioms FpgoVerif.C04.C04_reachable_inv
+#print axioms FpgoVerif.C04.C04_run_persistent
+#print axioms FpgoVerif.C04.C04_program
+#print axioms FpgoVerif.C04.C04_live_handles_valid
+#print axioms FpgoVerif.C04.C04_set_touches_maps_only
+#print axioms FpgoVerif.C04.C04_set_result
+#print axioms FpgoVerif.C04.C04_write_touches_one_array
+#print axioms FpgoVerif.C04.C04_ifaceRemove_returns_receiver
+#print axioms FpgoVerif.C04.C04_newStream_content
+#print axioms FpgoVerif.C04.C04_stream_results
+#print axioms FpgoVerif.C04.C04_stream_results_binary
+#print axioms FpgoVerif.C04.C04_toArray_detached
+#print axioms FpgoVerif.C04.C04_clone_detached
+#print axioms FpgoVerif.C04.C04_len_agrees_partial
+#print axioms FpgoVerif.C04.C04_effects_closed
+#print axioms FpgoVerif.C04.C04_effects_inventory
+#print axioms FpgoVerif.C04.C04_ifaceRemove_frame
